@@ -76,6 +76,7 @@ def spaces(tier):
     for combo in cs.ODD:
         out.append(cs.db_space(4, combo, 1))
     out.append(cs.sequence_space(3 if tier == 'quick' else 4))
+    out.append(cs.sequence_space(3 if tier == 'quick' else 4, dataset=3))
     return out
 
 
